@@ -5,6 +5,7 @@ Every universe is an explicit product, so its size is known, any index can be de
 product can be sharded over processes without materialising it.
 """
 import itertools
+from fractions import Fraction
 
 P1, P2, PR = "Player 1", "Player 2", "Probabilistic"
 # action names are chosen so that some are substrings / prefixes of others ("a" in "ab", "b" in "ab", "a" in "ba"):
@@ -645,6 +646,25 @@ def U_K_games():
                         st[s_] = (PR, 0, [(1, W)])
                     games.append(dict(rewards=[st[i][1] for i in range(16)], players=[st[i][0] for i in range(16)],
                                       transition_list=[list(st[i][2]) for i in range(16)], final_states=[W]))
+    # action names that begin with a digit: state 1 with action "2x" and state 12 with action "x" (or state 1 / "1a" and state 11 / "a")
+    # spell the same text when a state number and an action name are glued together
+    for c, n1, nc in ((12, "2x", "x"), (11, "1a", "a")):
+        leaves = [2, 3, 13, 11 if c == 12 else 12]
+        for perm in itertools.permutations((0.25, 0.5, 0.75, 0.9)):
+            for rperm in ((0, 1, 2, 3), (3, 2, 1, 0)):
+                for K in (P1, P2):
+                    leaf = dict(zip(leaves, perm))
+                    lrew = dict(zip(leaves, rperm))
+                    st = {0: (PR, 0, [(0.5, 1), (0.5, c)]),
+                          1: (K, 1, [(n1, leaves[0]), ("y", leaves[1])]),
+                          c: (K, 0, [(nc, leaves[2]), ("z", leaves[3])]),
+                          L: (PR, 0, [(1, L)]), W: (PR, 0, [(1, W)])}
+                    for s_, p in leaf.items():
+                        st[s_] = (PR, lrew[s_], [(p, W), (round(1 - p, 2), L)])
+                    for s_ in range(16):
+                        st.setdefault(s_, (PR, 0, [(1, W)]))
+                    games.append(dict(rewards=[st[i][1] for i in range(16)], players=[st[i][0] for i in range(16)],
+                                      transition_list=[list(st[i][2]) for i in range(16)], final_states=[W]))
     return games
 
 
@@ -850,3 +870,100 @@ def U_PAIR_games(finals_options=((4,), (3,), (3, 4))):
                 tl += [[(1, 3)], [(1, 4)]]
                 out.append(game_of(players, tl, list(fin), [1, 2, 3, 0, 0]))
     return out
+
+
+# ------------------------------------------------------------------------------ families added after the sixth seeded round
+
+def U_WIDE_games():
+    """one focus state with MANY successors (9, 10, 12, 17, 40): every successor is a state of its own that is either dead (falls into
+    lose) or live (goes to win, some through a coin); dead/live patterns: alternating, dead prefix, dead suffix, a single live one in the
+    middle, a single dead one, every third live; the focus state is probabilistic (uniform or increasing decimal weights), Player 1 or
+    Player 2, and is state 0 or sits behind a coin."""
+    games = []
+    for deg in (9, 10, 12, 17, 40):
+        patterns = {"alternating": [i % 2 == 0 for i in range(deg)], "dead-prefix": [i >= deg // 2 for i in range(deg)],
+                    "dead-suffix": [i < deg // 2 for i in range(deg)], "one-live": [i == deg // 2 for i in range(deg)],
+                    "one-dead": [i != deg - 2 for i in range(deg)], "third-live": [i % 3 == 2 for i in range(deg)]}
+        for pname, live in sorted(patterns.items()):
+            for kind in (PR, P1, P2):
+                for weights in (("uniform", "decimal") if kind == PR else ("-",)):
+                    for behind in (False, True):
+                        f = 1 if behind else 0
+                        first = f + 1
+                        lose, win = first + deg, first + deg + 1
+                        n = win + 1
+                        players, tl, rewards = [], [], []
+                        if behind:
+                            players.append(PR); tl.append([(0.5, f), (0.5, win)]); rewards.append(0)
+                        if kind == PR:
+                            if weights == "uniform" and deg in (10, 40):
+                                ws = [1.0 / deg] * deg
+                            elif weights == "uniform":
+                                ws = [Fraction(1, deg)] * deg
+                            else:
+                                tot = deg * (deg + 1) // 2
+                                ws = [Fraction(i + 1, tot) for i in range(deg)]
+                            ws = [float(w) for w in ws]
+                            ws[-1] = 1.0 - sum(ws[:-1])
+                            if abs(sum(ws) - 1.0) > 1e-12 or min(ws) <= 0:
+                                continue
+                            row = [(ws[i], first + i) for i in range(deg)]
+                        else:
+                            row = [("act%d" % i, first + i) for i in range(deg)]
+                        players.append(kind); tl.append(row); rewards.append(1)
+                        for i in range(deg):
+                            players.append(PR)
+                            if live[i]:
+                                tl.append([(1, win)] if i % 4 else [(0.5, win), (0.5, lose)])
+                                rewards.append(1 + i % 3)
+                            else:
+                                tl.append([(1, lose)])
+                                rewards.append(2)
+                        players += [PR, PR]; tl += [[(1, lose)], [(1, win)]]; rewards += [0, 0]
+                        games.append(game_of(players, tl, [win], rewards))
+    return games
+
+
+def U_BIG_games():
+    """huge rewards (10**12, 10**19 > 2**63, 2*10**19, 10**25): choosers between branches that all carry such rewards, near-ties of the
+    reachability values (1/2 against 1/2 + 4e-4, 5e-5) next to them, both players, with a dead branch and without"""
+    games = []
+    for big in (10 ** 12, 10 ** 19, 2 * 10 ** 19, 10 ** 25):
+        for chooser in (P1, P2):
+            for p2nd in (0.5, 0.5004, 0.50005, 0.25):
+                for swap in (0, 1):
+                    for dead in (0, 1):
+                        # 0 chooser -> 1 | 2 ; 1: coin (1/2 win via 3, 1/2 lose) ; 2: coin (p2nd win via 4, rest lose); 3, 4 carry the rewards; 5 lose, 6 win
+                        a, b = (1, 2) if not swap else (2, 1)
+                        row0 = [(ACTIONS[0], a), (ACTIONS[1], b)] + ([(ACTIONS[2], 5)] if dead else [])
+                        tl = [row0, [(0.5, 3), (0.5, 5)], [(p2nd, 4), (1 - p2nd, 5)], [(1, 6)], [(1, 6)], [(1, 5)], [(1, 6)]]
+                        games.append(game_of([chooser, PR, PR, PR, PR, PR, PR], tl, [6], [0, 0, 0, big, 2 * big, 0, 0]))
+            # a Player 2 / Player 1 state all of whose successors are worth at least 2**63, below a coin
+            for rew in ((big, big), (big, 2 * big), (2 * big, big)):
+                tl = [[(0.5, 1), (0.5, 4)], [("cheap", 2), ("dear", 3)], [(1, 5)], [(1, 5)], [(1, 4)], [(1, 5)]]
+                games.append(game_of([PR, chooser, PR, PR, PR, PR], tl, [5], [0, 0, rew[0], rew[1], 0, 0]))
+    return games
+
+
+def U_MF_games():
+    """many final states (40, 70, 130), all absorbing; the losing sink sits INSIDE their index range (a gap); listed ascending, descending,
+    interleaved, and ascending / descending with one entry repeated (so that the list is as long as the index range although one state of
+    the range is not final); a coin, a Player 1 and a Player 2 state choose among some of them and the losing sink"""
+    games = []
+    for nf in (40, 70, 130):
+        n = 4 + nf
+        lose = 3 + nf // 3
+        finals_sorted = [s for s in range(3, n) if s != lose]
+        orders = {"ascending": finals_sorted, "descending": finals_sorted[::-1],
+                  "interleaved": finals_sorted[1::2] + finals_sorted[0::2][::-1],
+                  "ascending+repeat": finals_sorted + [finals_sorted[nf // 2]],
+                  "descending+repeat": finals_sorted[::-1] + [finals_sorted[5]]}
+        for oname, finals in sorted(orders.items()):
+            for variant in (0, 1):
+                lo, mid, hi = finals_sorted[0], finals_sorted[nf // 2], finals_sorted[-1]
+                tl = [[(0.5, 1), (0.5, 2)],
+                      [(ACTIONS[0], lose), (ACTIONS[1], mid if variant else hi)],
+                      [(ACTIONS[0], lo), (ACTIONS[1], lose if variant else hi)]]
+                tl += [[(1, s)] for s in range(3, n)]
+                games.append(game_of([PR, P1, P2] + [PR] * (n - 3), tl, list(finals), [1, 2, 1] + [0] * (n - 3)))
+    return games
